@@ -61,6 +61,19 @@ def cases(tier: str):
                                 for is_async in ((False,) if q and n == 3 else (False, True)):
                                     yield dict(n=n, es=es4, falsy=falsy, res=res, seq=(False,) * n, prio=(0,) * n, mc=mc, is_async=is_async,
                                                ties=1 if q else None)
+    # setup(root_nodes=[r]) on DAGs made of setup nodes only (diamonds included): dependencies hold inside that run as well
+    for n in (3, 4):
+        for es in shapes(n):
+            if len(es) < n - 1:
+                continue
+            roots = [i for i in range(n) if not any(b == i for (a, b) in es)]
+            if len(roots) != 1:
+                continue  # (with several roots the default targets - all setup nodes - are not all below the chosen root)
+            for r in roots:
+                for prio in ((0,) * n, tuple(range(n)), tuple(5 if j == n - 1 else (-3 if j == n - 2 else 0) for j in range(n))):
+                    for mc in (1, 2):
+                        yield dict(n=n, es=[(i, j, "pos", ()) for (i, j) in es], setup=list(range(n)), falsy=[], res="t" * n, seq=(False,) * n, prio=prio,
+                                   mc=mc, is_async=False, sel={"setup": True, "T": None, "R": [r]}, ties=0)
     # constant activation flags: a deactivated node next to pending predecessors of its children
     for n in (2, 3, 4):
         for es in shapes(n):
